@@ -20,12 +20,25 @@ pub fn bounded<T>(cap: usize) -> (Sender<T>, Receiver<T>) {
     let ch = Arc::new(Chan { id: new_obj(Obj::Chan { len: 0, senders: 1, receivers: 1, cap: cap.max(1) }), q: Mutex::new(VecDeque::new()) });
     (Sender { ch: ch.clone() }, Receiver { ch })
 }
-#[derive(Debug, PartialEq, Eq, Clone, Copy)] pub enum RecvError { Disconnected }
-pub use RecvError::Disconnected as RecvDisconnected;
+#[derive(Debug, PartialEq, Eq, Clone, Copy)] pub struct RecvError;
+impl fmt::Display for RecvError { fn fmt(&self, f: &mut fmt::Formatter) -> fmt::Result { f.write_str("receiving on an empty and disconnected channel") } }
+impl std::error::Error for RecvError {}
+impl fmt::Display for TryRecvError { fn fmt(&self, f: &mut fmt::Formatter) -> fmt::Result { f.write_str(match self { TryRecvError::Empty => "receiving on an empty channel", TryRecvError::Disconnected => "receiving on an empty and disconnected channel" }) } }
+impl std::error::Error for TryRecvError {}
+impl<T> fmt::Display for SendError<T> { fn fmt(&self, f: &mut fmt::Formatter) -> fmt::Result { f.write_str("sending on a disconnected channel") } }
+impl<T> std::error::Error for SendError<T> {}
+impl<T> SendError<T> { pub fn into_inner(self) -> T { self.0 } }
+impl TryRecvError { pub fn is_empty(&self) -> bool { matches!(self, TryRecvError::Empty) } pub fn is_disconnected(&self) -> bool { matches!(self, TryRecvError::Disconnected) } }
+/// a channel that never delivers anything and is never disconnected (so it is never ready)
+pub fn never<T>() -> Receiver<T> {
+    let ch = Arc::new(Chan { id: new_obj(Obj::Chan { len: 0, senders: 1, receivers: 1, cap: usize::MAX }), q: Mutex::new(VecDeque::new()) });
+    Receiver { ch }
+}
 pub enum TrySendError<T> { Full(T), Disconnected(T) }
 impl<T> fmt::Debug for TrySendError<T> { fn fmt(&self, f: &mut fmt::Formatter) -> fmt::Result { f.write_str("TrySendError(..)") } }
 impl<T> Clone for Sender<T> { fn clone(&self) -> Self { with_obj(self.ch.id, |o| if let Obj::Chan { senders, .. } = o { *senders += 1 }); Sender { ch: self.ch.clone() } } }
 impl<T> Drop for Sender<T> { fn drop(&mut self) { with_obj(self.ch.id, |o| if let Obj::Chan { senders, .. } = o { *senders = senders.saturating_sub(1) }); } }
+impl<T> Clone for Receiver<T> { fn clone(&self) -> Self { with_obj(self.ch.id, |o| if let Obj::Chan { receivers, .. } = o { *receivers += 1 }); Receiver { ch: self.ch.clone() } } }
 impl<T> Drop for Receiver<T> { fn drop(&mut self) { with_obj(self.ch.id, |o| if let Obj::Chan { receivers, .. } = o { *receivers = receivers.saturating_sub(1) }); } }
 impl<T> fmt::Debug for Sender<T> { fn fmt(&self, f: &mut fmt::Formatter) -> fmt::Result { f.write_str("Sender { .. }") } }
 impl<T> fmt::Debug for Receiver<T> { fn fmt(&self, f: &mut fmt::Formatter) -> fmt::Result { f.write_str("Receiver { .. }") } }
@@ -50,7 +63,7 @@ impl<T> Receiver<T> {
         point(Op::Recv(self.ch.id));
         match self.ch.q.lock().unwrap().pop_front() {
             Some(t) => { with_obj(self.ch.id, |o| if let Obj::Chan { len, .. } = o { *len -= 1 }); Ok(t) }
-            None => Err(RecvError::Disconnected),
+            None => Err(RecvError),
         }
     }
     pub fn try_iter(&self) -> impl Iterator<Item = T> + '_ { std::iter::from_fn(move || self.try_recv().ok()) }
@@ -91,4 +104,61 @@ impl<'a> Select<'a> {
     pub fn stub_ready_set(&self) -> Vec<usize> {
         self.ids.iter().enumerate().filter(|(_, id)| id.map(|id| with_obj(id, |o| matches!(o, Obj::Chan { len, senders, .. } if *len > 0 || *senders == 0)).unwrap_or(false)).unwrap_or(false)).map(|(i, _)| i).collect()
     }
+}
+
+// --- `select!` over receive operations ---------------------------------------------------------
+#[doc(hidden)]
+pub fn __recv_selected<T>(r: &Receiver<T>) -> Result<T, RecvError> {
+    // the channel was reported ready: a message is there, or it is disconnected; with several
+    // consumers the message may be gone again, in which case this blocks like the chosen arm would
+    match r.try_recv() {
+        Ok(t) => Ok(t),
+        Err(TryRecvError::Disconnected) => Err(RecvError),
+        Err(TryRecvError::Empty) => r.recv(),
+    }
+}
+/// `select!` with `recv(r) -> res => body` arms and an optional `default => body` arm (no `send`
+/// arms, no timeouts): blocks until one of the channels is ready, the explorer choosing among the
+/// ready ones, exactly like `Select::ready` followed by a receive on that channel.
+#[macro_export]
+macro_rules! select {
+    ($($t:tt)*) => { $crate::__select_munch!( [] [] $($t)* ) };
+}
+#[doc(hidden)]
+#[macro_export]
+macro_rules! __select_munch {
+    ( [$( ($r:expr, $res:pat, $body:expr) )+] [$($d:expr)?] ) => { $crate::__select_emit!( [$( ($r, $res, $body) )+] [$($d)?] ) };
+    ( [$($arms:tt)*] [] default => $b:block $(,)? $($rest:tt)* ) => { $crate::__select_munch!( [$($arms)*] [$b] $($rest)* ) };
+    ( [$($arms:tt)*] [] default => $b:expr , $($rest:tt)* ) => { $crate::__select_munch!( [$($arms)*] [$b] $($rest)* ) };
+    ( [$($arms:tt)*] [] default => $b:expr ) => { $crate::__select_munch!( [$($arms)*] [$b] ) };
+    ( [$($arms:tt)*] [$($d:tt)*] recv($r:expr) -> $res:pat => $b:block $(,)? $($rest:tt)* ) => { $crate::__select_munch!( [$($arms)* ($r, $res, $b)] [$($d)*] $($rest)* ) };
+    ( [$($arms:tt)*] [$($d:tt)*] recv($r:expr) -> $res:pat => $b:expr , $($rest:tt)* ) => { $crate::__select_munch!( [$($arms)* ($r, $res, $b)] [$($d)*] $($rest)* ) };
+    ( [$($arms:tt)*] [$($d:tt)*] recv($r:expr) -> $res:pat => $b:expr ) => { $crate::__select_munch!( [$($arms)* ($r, $res, $b)] [$($d)*] ) };
+}
+#[doc(hidden)]
+#[macro_export]
+macro_rules! __select_emit {
+    ( [$( ($r:expr, $res:pat, $body:expr) )+] [] ) => {{
+        let __i = {
+            let mut __sel = $crate::Select::new();
+            $( let _ = __sel.recv(&$r); )+
+            __sel.ready()
+        };
+        let mut __k = 0usize;
+        $( if { let __hit = __i == __k; __k += 1; __hit } { let $res = $crate::__recv_selected(&$r); $body } else )+ { let _ = __k; unreachable!() }
+    }};
+    ( [$( ($r:expr, $res:pat, $body:expr) )+] [$d:expr] ) => {{
+        let __i = {
+            let mut __sel = $crate::Select::new();
+            $( let _ = __sel.recv(&$r); )+
+            __sel.try_ready()
+        };
+        match __i {
+            Err(_) => $d,
+            Ok(__i) => {
+                let mut __k = 0usize;
+                $( if { let __hit = __i == __k; __k += 1; __hit } { let $res = $crate::__recv_selected(&$r); $body } else )+ { let _ = __k; unreachable!() }
+            }
+        }
+    }};
 }
